@@ -181,6 +181,11 @@ class ConstEval:
                 return UNKNOWN
             return {'len': len, 'abs': abs, 'float': float, 'int': int,
                     'str': str}[name](args[0])
+        if name in ('ord', 'chr') and len(args) == 1 and not _unk(args[0]):
+            try:
+                return ord(args[0]) if name == 'ord' else chr(args[0])
+            except (TypeError, ValueError):
+                return UNKNOWN
         if name == 'range' and args and not _unk(*args):
             return list(range(*args))
         if name and name.startswith('math.') and not _unk(*args):
@@ -196,7 +201,8 @@ class ConstEval:
                 return list(getattr(base, meth)())
             if isinstance(base, dict) and meth == 'get' and args and not _unk(*args):
                 return base.get(*args)
-            if isinstance(base, str) and meth in ('strip', 'lower', 'upper') and not args:
+            if isinstance(base, str) and meth in ('strip', 'lower', 'upper', 'isdigit', 'isalpha',
+                                                  'isupper', 'islower', 'isspace') and not args:
                 return getattr(base, meth)()
         return UNKNOWN
 
